@@ -108,7 +108,14 @@ def make_hooked_class():
 
         def __validate__(self, visitor, *, value=Nil, path=Nil, **kwargs):
             CTL.enter("validate")
+            if self.props.get("index_path", False):
+                # what user hooks do to address a part of the value: PathHolder indexing extends the
+                # holder it was given (harmless as long as every call gets its own holder)
+                path = path["hooked"]
             return self.props.inner.__accept__(visitor, value=value, path=path, **kwargs)
+
+        def index_path(self):
+            return self.__class__(self.props.update(index_path=True))
 
         def __substitute__(self, visitor, *, value=Nil, **kwargs):
             CTL.enter("substitute")
@@ -161,6 +168,10 @@ def snap(v):
         return "(" + ",".join(snap(x) for x in v) + ")"
     if t is dict:
         return "{" + ",".join(snap(k) + ":" + snap(x) for k, x in v.items()) + "}"
+    if isinstance(v, dict):
+        return t.__name__ + "{" + ",".join(snap(k) + ":" + snap(x) for k, x in v.items()) + "}"
+    if isinstance(v, list):
+        return t.__name__ + "[" + ",".join(snap(x) for x in v) + "]"
     if hasattr(v, "props") and hasattr(v, "__accept__"):
         return "<schema %s>" % _safe(lambda: repr(v))
     if t.__name__ == "optional":
@@ -354,7 +365,7 @@ class Machine:
             self._last_ref_clone = clone(ve.value)
             return ve.value, ve
         v = dec(vspec["new"])
-        if type(v) in (list, dict) and vout:
+        if isinstance(v, (list, dict)) and vout:
             self._pending_retained.append((v, role, vout, snap(v)))
         return v, None
 
@@ -412,6 +423,8 @@ class Machine:
                 res = sc.dict(args[0])
             elif kind == "hooked":
                 res = P.env.Hooked()(args[0])
+            elif kind == "hooked_index":
+                res = P.env.Hooked()(args[0]).index_path()
             elif kind == "make_required":
                 keys = args[1]
                 if type(keys) is list:
@@ -656,7 +669,7 @@ class OpGen:
         self.k = knobs
         self.n = 0
         w = {}
-        for name, base in (("declare", 3), ("bare", 2), ("refine", 4), ("combine", 3), ("substitute", 3), ("validate", 3),
+        for name, base in (("declare", 3), ("bare", 2), ("regex", 1), ("refine", 4), ("combine", 3), ("substitute", 3), ("validate", 3),
                            ("fake", 2), ("print", 1), ("read", 1), ("from_native", 1), ("mutate", 4), ("repeat", 3),
                            ("eq_schema", 1)):
             w[name] = base * r.choice((0.3, 1, 1, 2))
@@ -686,8 +699,18 @@ class OpGen:
             if y < 0.7:
                 return S.partial_of(w, r, 0.4)
             return perturb(w, r)
-        if x < 0.8:
+        if x < 0.72:
             return copy.deepcopy(r.choice(UNRELATED))
+        if x < 0.82:
+            from collections import OrderedDict, defaultdict
+            base = {"a": 1, "id": 2} if r.random() < 0.5 else {}
+            if e is not None and type(e.witness) is dict and r.random() < 0.7:
+                base = S.partial_of(copy.deepcopy(e.witness), r, 0.5)
+            if r.random() < 0.7:
+                d = defaultdict(int)
+                d.update(base)
+                return r.choice((d, [d], {"k": d}))
+            return OrderedDict(base)
         return copy.deepcopy(r.choice(([1, ...], {"a": ...}, [..., 1], {"a": [1, 2], "b": {"c": None}}, [[1, 2], [3]], [{"a": 1}, {"a": 2}])))
 
     def vspec(self, e):
@@ -838,6 +861,26 @@ class OpGen:
         call = r.choice(cands)
         return {"op": "refine", "s": sid, "call": call, "out": self.new_id("s")}
 
+    def g_regex(self):
+        """A regex str (incl. open-ended repeats with a minimum above the default cap, and now and then an
+        unsupported construct, so that some fake() calls raise inside the shared regex generator)."""
+        import re as _re
+        r = self.r
+        cfg = S.G.Cfg(r, depth=r.choice((1, 2)), budget=r.choice((32, 128)), p_neg=0.1, size=r.choice((1, 2, 3)),
+                      max_repeat=32, p_unsup=r.choice((0.0, 0.0, 0.4)))
+        for _ in range(6):
+            ast = S.G.gen_pattern(cfg)
+            if S.G.rep_nesting(ast) > 1:
+                continue
+            pat = S.G.render(ast)
+            try:
+                _re.compile(pat)
+            except Exception:
+                continue
+            spec = {"t": "str", "regex": {"pattern": pat, "ast": ast}, "order": ["regex"]}
+            return {"op": "declare", "spec": spec, "out": self.new_id("s")}
+        return None
+
     def g_bare(self):
         """A bare type (nothing declared yet), so that refinements have something to build on."""
         r = self.r
@@ -849,7 +892,7 @@ class OpGen:
 
     def g_combine(self):
         r = self.r
-        kind = r.choice(("+", "|", "any", "alias", "list_of", "list_elems", "dict_of", "make_required", "hooked"))
+        kind = r.choice(("+", "|", "any", "alias", "list_of", "list_elems", "dict_of", "make_required", "hooked", "hooked_index"))
         a = self.pick_sid()
         b = self.pick_sid()
         out = self.new_id("s")
@@ -859,7 +902,7 @@ class OpGen:
             return {"op": "combine", "kind": "+", "args": [{"$schema": da}, {"$schema": db}], "out": out}
         if kind in ("|", "any"):
             return {"op": "combine", "kind": kind, "args": [{"$schema": a}, {"$schema": b}], "out": out}
-        if kind in ("alias", "list_of", "hooked"):
+        if kind in ("alias", "list_of", "hooked", "hooked_index"):
             return {"op": "combine", "kind": kind, "args": [{"$schema": a}], "out": out}
         if kind == "list_elems":
             ids = [self.pick_sid() for _ in range(r.randint(0, 3))]
@@ -903,8 +946,11 @@ class OpGen:
 
     def g_fake(self):
         r = self.r
-        sched = {"policy": r.choice(("lo", "hi", "mid", "rnd", "alt", "mix")), "seed": r.getrandbits(32), "p": 0.3, "overrides": {}}
-        return {"op": "fake", "s": self.pick_sid(), "how": r.choice(("fake", "invert")), "schedule": sched}
+        sched = {"policy": r.choice(("lo", "hi", "hi", "mid", "rnd", "alt", "mix")), "seed": r.getrandbits(32), "p": 0.3, "overrides": {}}
+        sid = self.pick_sid()
+        if r.random() < 0.3:
+            sid = self.pick_sid(lambda e: type(e.schema).__name__ == "StrSchema") or sid
+        return {"op": "fake", "s": sid, "how": r.choice(("fake", "invert")), "schedule": sched}
 
     def g_print(self):
         return {"op": "print", "s": self.pick_sid(), "how": self.r.choice(("repr", "represent"))}
